@@ -106,7 +106,7 @@ class Ctx:
            (hi is not None and (v > hi + eps or (hi_strict and v >= hi))) or (ne is not None and v == ne):
             raise ReplayInvalid(f'{name}={v} outside declared range')
         info['value'] = v
-        return v
+        return np.float64(v)   # numpy flavour: x/0 -> inf, like the arrays in the library
 
     def boolean(self, name):
         info = dict(kind='bool')
@@ -211,8 +211,8 @@ class Ctx:
                 return x
             r = SV.of(x)
             return r if r is not None else x
-        if isinstance(x, (np.floating, np.integer)):
-            return float(x)
+        if isinstance(x, (float, np.integer)) and not isinstance(x, np.floating):
+            return np.float64(x)
         return x
 
     def vals(self, x):
@@ -226,7 +226,7 @@ class Ctx:
 
     def const(self, x):
         """a numeric literal in the flavour of the mode (SV in sym mode)"""
-        return SV(float(x)) if self.sym else float(x)
+        return SV(float(x)) if self.sym else np.float64(x)
 
     def finite(self, x):
         """concretely decidable finiteness of a computed value (symbolic terms are finite)"""
